@@ -1,13 +1,14 @@
 """C22 helpers: render a case printed by spec/ComptimeOwn.tla as a @guppy.comptime function and
 compile it with /repo's guppylang.
 
-A case is {ty, origin, prog: [{op, p}], ret, rshape, verdict, reason}; paths p are 1-based index
-sequences below the subject `x`; ret = [0] means the body falls off the end.
+A case is {ty, origin, prog: [{op, p}], ret, rshape, verdict, reason, at}; paths p are 1-based index
+sequences below the subject `x`; ret = [0] means the body falls off the end, ret = [9] `return x, x`.
 """
 from __future__ import annotations
 
 PRELUDE_EXTRA = '''
 from guppylang.std.builtins import array, owned
+from guppylang.std.option import Option
 import hugr.tys as _ht
 n = guppy.nat_var("n")
 
@@ -42,6 +43,20 @@ def use_f(v: Aff @owned) -> None: ...
 @guppy.declare
 def bor_f(v: Aff) -> None: ...
 @guppy.declare
+def new_o() -> Option[array[int, 2]]: ...
+@guppy.declare
+def use_o(v: Option[array[int, 2]] @owned) -> None: ...
+@guppy.declare
+def bor_o(v: Option[array[int, 2]]) -> None: ...
+@guppy.declare
+def use_pair_q(v: tuple[qubit, qubit] @owned) -> None: ...
+@guppy.declare
+def use_pair_i(v: tuple[int, int]) -> None: ...
+@guppy.declare
+def use_pair_f(v: tuple[Aff, Aff] @owned) -> None: ...
+@guppy.declare
+def use_pair_o(v: tuple[Option[array[int, 2]], Option[array[int, 2]]] @owned) -> None: ...
+@guppy.declare
 def use_aq(v: array[qubit, n] @owned) -> None: ...
 @guppy.declare
 def bor_aq(v: array[qubit, n]) -> None: ...
@@ -69,17 +84,17 @@ def bor_sa(v: SA) -> None: ...
 
 # static description of the subject types: kind, children (static type names), field names
 STATIC = {
-    "Q": ("leaf", [], None), "I": ("leaf", [], None), "F": ("leaf", [], None),
+    "Q": ("leaf", [], None), "I": ("leaf", [], None), "F": ("leaf", [], None), "O": ("leaf", [], None),
     "AQ": ("list", ["Q", "Q"], None), "AI": ("list", ["I", "I"], None),
     "TQ": ("tuple", ["Q", "Q"], None), "TA": ("tuple", ["AQ", "Q"], None),
     "SQ": ("struct", ["Q", "Q"], ["a", "b"]), "SA": ("struct", ["AQ", "Q"], ["qs", "q"]),
 }
-ANNOT = {"Q": "qubit", "I": "int", "F": "Aff", "AQ": "array[qubit, 2]", "AI": "array[int, 2]",
+ANNOT = {"Q": "qubit", "I": "int", "F": "Aff", "O": "Option[array[int, 2]]", "AQ": "array[qubit, 2]", "AI": "array[int, 2]",
          "TQ": "tuple[qubit, qubit]", "TA": "tuple[array[qubit, 2], qubit]", "SQ": "S", "SA": "SA"}
-CTOR = {"Q": "new_q()", "I": "new_i()", "F": "new_f()", "AQ": "[new_q(), new_q()]", "AI": "[new_i(), new_i()]",
+CTOR = {"Q": "new_q()", "I": "new_i()", "F": "new_f()", "O": "new_o()", "AQ": "[new_q(), new_q()]", "AI": "[new_i(), new_i()]",
         "TQ": "(new_q(), new_q())", "TA": "([new_q(), new_q()], new_q())", "SQ": "S(new_q(), new_q())",
         "SA": "SA([new_q(), new_q()], new_q())"}
-FRESH = {"Q": "new_q()", "I": "new_i()", "F": "new_f()"}
+FRESH = {"Q": "new_q()", "I": "new_i()", "F": "new_f()", "O": "new_o()"}
 
 
 def walk(ty: str, path):
@@ -119,6 +134,10 @@ def render(case: dict) -> str:
             lines.append(f"use_{t.lower()}({e})")
         elif op == "borrow":
             lines.append(f"bor_{t.lower()}({e})")
+        elif op == "usepair":
+            lines.append(f"use_pair_{t.lower()}(({e}, {e}))")
+        elif op == "usewith":
+            lines.append(f"use_pair_{t.lower()}(({e}, {FRESH[t]}))")
         elif op.startswith("setattr"):
             kind, kids, names = STATIC[t]
             last = f"{e}.{names[-1]}"
@@ -150,6 +169,9 @@ def render(case: dict) -> str:
             }[op])
     if case["ret"] == [0]:
         rann = "None"
+    elif case["ret"] == [9]:
+        rann = f"tuple[{ANNOT[ty]}, {ANNOT[ty]}]"
+        lines.append("return x, x")
     else:
         e, t, _ = walk(ty, case["ret"])
         try:
